@@ -555,6 +555,11 @@ ErrorCode Library::write_oas(const char* filename, double circle_tolerance,
                 Reference* ref = *ref_p++;
                 len = max_string_length(ref->properties);
                 if (len > string_max) string_max = len;
+                if (ref->type == ReferenceType::Name) {
+                    // Written inline in the PLACEMENT record when the cell is not in the library
+                    len = strlen(ref->name);
+                    if (len > string_max) string_max = len;
+                }
             }
 
             Label** label_p = cell->label_array.items;
